@@ -29,6 +29,7 @@ WTInit == /\ wev \in WEvents
           /\ wc = [id |-> wev.id, cmd |-> wev.cmd, inp |-> wev.inp, s |-> wev.s]
           /\ pc = "start" /\ status = "running"
           /\ calls = <<>> /\ out = {} /\ fcsrc = "none" /\ nacsrc = "none" /\ cellsrc = "none"
+          /\ nacfac = "none"
 WTNext == WNext /\ UNCHANGED wev
 WTSpec == WTInit /\ [][WTNext]_wtvars
 
